@@ -1,5 +1,5 @@
 """C13 — pool shutdown and iv_thread lifetime: drain, paired hooks, join, release."""
-from ..core import (AnalysisBroken, Inliner, canon, strip, last_member, must_pass, relpath, norm_cond, walk, forward)
+from ..core import (names_of, same_value, AnalysisBroken, Inliner, canon, strip, last_member, must_pass, relpath, norm_cond, walk, forward)
 from ..analyses import (is_call, holding, path_to, describe, exits_of, callback_kind, loops, innermost_loop,
                         locksets, held, force_edges, list_empty_test, must_pass_from_block, atoms_reading)
 from .c12 import lm_arg, per_iter_must, POOL
